@@ -322,7 +322,7 @@ pub fn run_blind(c: &mut Cfb, script: &[BOp], st: &mut BlindStats, trace: &mut V
 /// Handles that outlive their `CompoundFile`: a handle is opened on up to six listed streams
 /// (small buffer, so that longer streams need refills), reads one window, the compound file is
 /// dropped, and the handles go on being used. Every call must return Ok or Err.
-pub fn orphaned_handles(bytes: &[u8], strict: bool, st: &mut BlindStats, trace: &mut Vec<String>) -> Result<(), Fail> {
+pub fn orphaned_handles(bytes: &[u8], strict: bool, mutating: bool, st: &mut BlindStats, trace: &mut Vec<String>) -> Result<(), Fail> {
     let io = crate::backend::Io::from_bytes(bytes.to_vec());
     let c = match guard("open", || crate::engine::open_options(Some(1024), strict).open_with(io))? {
         Ok(c) => c,
@@ -343,8 +343,23 @@ pub fn orphaned_handles(bytes: &[u8], strict: bool, st: &mut BlindStats, trace: 
     trace.push(format!("(compound file dropped with {} handles alive)", hs.len()));
     guard("drop_compound_file", move || drop(c))?;
     let script = [HOp::Read(700), HOp::Read(3000), HOp::SeekCur(0), HOp::FillConsume(100), HOp::Pos, HOp::SeekCur(-1), HOp::Len, HOp::ReadToEnd, HOp::SeekCur(0), HOp::SeekEnd(0), HOp::SeekStart(0), HOp::Read(10)];
+    let wscript = [
+        HOp::Write(DataSpec { len: 100, seed: 1 }),
+        HOp::Flush,
+        HOp::SeekCur(0),
+        HOp::WriteAll(DataSpec { len: 3000, seed: 2 }),
+        HOp::SetLenRel(500),
+        HOp::Pos,
+        HOp::SetLen(10),
+        HOp::Read(50),
+        HOp::SeekCur(0),
+        HOp::Flush,
+    ];
     for s in hs.iter_mut() {
         run_handle(s, &script, st)?;
+        if mutating {
+            run_handle(s, &wscript, st)?;
+        }
     }
     for s in hs {
         guard("h_drop", move || drop(s))?;
